@@ -70,7 +70,7 @@ try:
             flagged[pid] = flagged.get(pid, 0) + 1
     result['checks_flagging'] = flagged
     result['detected'] = bool(flagged)
-    viol = [l for l in chk.stdout.splitlines() if not l.startswith('VIOLATION') and ('ABS' in l or ':' in l) and ('tier=' not in l)]
+    viol = [l for l in chk.stdout.splitlines() if not l.startswith('VIOLATION') and not l.startswith('KNOWN') and ('ABS' in l or ':' in l) and ('tier=' not in l)]
     result['first_reports'] = [l[:400] for l in viol[:4]]
     out = os.path.join('/verif/seeded', a.id)
     if os.path.isdir(out):
